@@ -97,12 +97,16 @@ def and_dom(*parts):
 
 
 class ModuleSource(object):
-    def __init__(self, repo, relpath, funcs, pyname):
+    def __init__(self, repo, relpath, funcs, pyname, text=None):
         self.relpath = relpath
         self.path = os.path.join(repo, relpath)
         self.pyname = pyname
-        with open(self.path) as f:
-            self.text = f.read()
+        if text is None:
+            with open(self.path) as f:
+                self.text = f.read()
+        else:
+            # synthetic functions assembled from statements extracted out of a larger function
+            self.text = text
         self.tree = ast.parse(self.text, self.path)
         self.defs = {}
         self.consts = {}
@@ -447,8 +451,11 @@ class FuncTranslator(object):
             ts = [t for (t, _, _) in args]
             if name == "abs" and tys == ["Z"]:
                 return ("(py_abs %s)" % ts[0], "Z", dom)
-            if name in ("min", "max") and tys == ["Z", "Z"]:
-                return ("(py_%s %s %s)" % (name, ts[0], ts[1]), "Z", dom)
+            if name in ("min", "max") and len(tys) >= 2 and all(t == "Z" for t in tys):
+                acc = ts[0]
+                for t in ts[1:]:
+                    acc = "(py_%s %s %s)" % (name, acc, t)
+                return (acc, "Z", dom)
             if name == "len" and tys == ["listZ"]:
                 return ("(py_len %s)" % ts[0], "Z", dom)
             if name == "sum" and tys == ["listZ"]:
